@@ -11,10 +11,24 @@ package dawn
 //   S <id> <mode> <ngoroutines> <nkeys> <plan> <history> <final entries>
 // plus ORACLE lines for every direct oracle that fails.  Every random choice derives from
 // $VERIF_SEED and the scenario id.
+//
+// Data independence.  The model treats keys and values as opaque numbers (its theorems hold for EVERY
+// key and value), so the correspondence must show that cache.go treats them as opaque too.  A call of
+// the plan therefore carries a value CODE = kind*1e6 + payload: kind 0 is the plain positive int (code =
+// payload), the other kinds are the Starlark value classes of c20Kinds (None, False, 0, "", (), fresh [] and
+// {}, frozen list, set, NaN, a function value, ... each with and without a payload).  The callable
+// builds the Starlark value of its code; whatever once returns or stores is decoded back to a code by
+// content (by pointer identity for the mutable kinds, so a copy is not "the same value").  Keys are
+// drawn from c20KeyStyles (empty, blank, NUL, case variants, 4 KiB common prefix, label-like,
+// NFC/NFD/invalid UTF-8, number-like).  The callable itself is a Go builtin, a Starlark def, a lambda or
+// a def WITHOUT return (implicit None); it fails by returning an error, by fail(), or by returning
+// (nil, nil).  Extra columns of the S line: quoted keys, readable plan, kinds, key style, shapes.
 
 import (
 	"context"
 	"fmt"
+	"math"
+	"math/big"
 	"math/rand"
 	"os"
 	"os/exec"
@@ -31,8 +45,207 @@ import (
 )
 
 type c20Call struct {
-	key int
-	val int64 // >= 1: the callable returns MakeInt(val); -1: the callable fails
+	key   int
+	val   int64 // >= 1: code of the value the callable returns (see c20Make); -1: the callable fails
+	shape int   // what the callable is, see c20Shapes
+}
+
+const c20KindBase = 1000000
+
+// value kinds; code = kind*c20KindBase + payload (payload 0 for the kinds that have only one value)
+var c20Kinds = []string{"int", "None", "False", "True", "int0", "negint", "bigint", "float0", "float", "nan",
+	"str_empty", "str", "bytes_empty", "tuple_empty", "tuple", "list_empty", "list", "list_frozen", "dict_empty", "dict",
+	"set_empty", "function"}
+
+var c20KindHasPayload = map[string]bool{"int": true, "negint": true, "bigint": true, "float": true, "str": true, "tuple": true,
+	"list_empty": true, "list": true, "list_frozen": true, "dict_empty": true, "dict": true, "set_empty": true}
+
+// callable shapes.  0-3 succeed (3 only ever returns None), 0-2 and 4-5 can fail.
+var c20Shapes = []string{"builtin", "def_return", "lambda", "def_no_return", "def_fail", "builtin_nil_nil"}
+
+var c20ShapeSrc = map[int]string{
+	1: "def f():\n    return h()\n",
+	2: "f = lambda: h()\n",
+	3: "def f():\n    h()\n",
+	4: "def f():\n    h()\n    fail('planned failure')\n",
+}
+
+var c20KeyStyles = []string{"plain", "empty_blank_nul", "case_space", "long_common_prefix", "label_like", "unicode", "number_like"}
+
+func c20Keys(style int) []string {
+	switch style {
+	case 1:
+		return []string{"", " ", "\x00"}
+	case 2:
+		return []string{"a", "A", "a "}
+	case 3:
+		p := strings.Repeat("k", 4096)
+		return []string{p + "0", p + "1", p}
+	case 4:
+		return []string{"//pkg:t", "//pkg:T", "//pkg/:t"}
+	case 5:
+		return []string{"\u00e9", "e\u0301", "\xff"}
+	case 6:
+		return []string{"0", "00", "None"}
+	}
+	return []string{"key0", "key1", "key2"}
+}
+
+func c20Code(kind string, uid int64) int64 {
+	for i, k := range c20Kinds {
+		if k == kind {
+			if !c20KindHasPayload[k] {
+				return int64(i) * c20KindBase
+			}
+			return int64(i)*c20KindBase + uid
+		}
+	}
+	panic("unknown kind " + kind)
+}
+
+var c20Big = new(big.Int).Lsh(big.NewInt(1), 70)
+
+// c20Make builds the Starlark value of a code.  Mutable values are fresh objects, registered by pointer.
+func c20Make(code int64, reg *sync.Map) starlark.Value {
+	kind, p := c20Kinds[code/c20KindBase], code%c20KindBase
+	var v starlark.Value
+	switch kind {
+	case "int":
+		return starlark.MakeInt64(p)
+	case "None":
+		return starlark.None
+	case "False":
+		return starlark.False
+	case "True":
+		return starlark.True
+	case "int0":
+		return starlark.MakeInt(0)
+	case "negint":
+		return starlark.MakeInt64(-p)
+	case "bigint":
+		return starlark.MakeBigInt(new(big.Int).Add(c20Big, big.NewInt(p)))
+	case "float0":
+		return starlark.Float(0)
+	case "float":
+		return starlark.Float(float64(p) + 0.5)
+	case "nan":
+		return starlark.Float(math.NaN())
+	case "str_empty":
+		return starlark.String("")
+	case "str":
+		return starlark.String("v" + strconv.FormatInt(p, 10))
+	case "bytes_empty":
+		return starlark.Bytes("")
+	case "tuple_empty":
+		return starlark.Tuple{}
+	case "tuple":
+		return starlark.Tuple{starlark.MakeInt64(p)}
+	case "list_empty":
+		v = starlark.NewList(nil)
+	case "list":
+		v = starlark.NewList([]starlark.Value{starlark.MakeInt64(p)})
+	case "list_frozen":
+		l := starlark.NewList([]starlark.Value{starlark.MakeInt64(p)})
+		l.Freeze()
+		v = l
+	case "dict_empty":
+		v = starlark.NewDict(0)
+	case "dict":
+		d := starlark.NewDict(1)
+		d.SetKey(starlark.MakeInt64(p), starlark.None)
+		v = d
+	case "set_empty":
+		v = starlark.NewSet(0)
+	case "function":
+		return starlark.Universe["len"]
+	default:
+		panic("c20Make: " + kind)
+	}
+	reg.Store(v, code)
+	return v
+}
+
+// c20Val decodes what once returned (or what is stored in entries) to a code; -1 error, -2 anything that
+// is not a value of the scenario.
+func c20Val(v starlark.Value, err error, reg *sync.Map) int64 {
+	if err != nil {
+		return -1
+	}
+	switch x := v.(type) {
+	case starlark.NoneType:
+		return c20Code("None", 0)
+	case starlark.Bool:
+		if x {
+			return c20Code("True", 0)
+		}
+		return c20Code("False", 0)
+	case starlark.Int:
+		if n, ok := x.Int64(); ok {
+			switch {
+			case n == 0:
+				return c20Code("int0", 0)
+			case n > 0 && n < c20KindBase:
+				return n
+			case n < 0 && n > -c20KindBase:
+				return c20Code("negint", -n)
+			}
+			return -2
+		}
+		d := new(big.Int).Sub(x.BigInt(), c20Big)
+		if d.IsInt64() && d.Int64() > 0 && d.Int64() < c20KindBase {
+			return c20Code("bigint", d.Int64())
+		}
+	case starlark.Float:
+		f := float64(x)
+		switch {
+		case math.IsNaN(f):
+			return c20Code("nan", 0)
+		case f == 0:
+			return c20Code("float0", 0)
+		case f > 0 && f < c20KindBase && f-math.Floor(f) == 0.5:
+			return c20Code("float", int64(math.Floor(f)))
+		}
+	case starlark.String:
+		if x == "" {
+			return c20Code("str_empty", 0)
+		}
+		if n, e := strconv.ParseInt(strings.TrimPrefix(string(x), "v"), 10, 64); e == nil && strings.HasPrefix(string(x), "v") && n > 0 && n < c20KindBase {
+			return c20Code("str", n)
+		}
+	case starlark.Bytes:
+		if x == "" {
+			return c20Code("bytes_empty", 0)
+		}
+	case starlark.Tuple:
+		if len(x) == 0 {
+			return c20Code("tuple_empty", 0)
+		}
+		if len(x) == 1 {
+			if i, ok := x[0].(starlark.Int); ok {
+				if n, ok := i.Int64(); ok && n > 0 && n < c20KindBase {
+					return c20Code("tuple", n)
+				}
+			}
+		}
+	case *starlark.List, *starlark.Dict, *starlark.Set:
+		// mutable: "the same value" is the same object
+		if code, ok := reg.Load(v); ok {
+			return code.(int64)
+		}
+	case *starlark.Builtin:
+		if x == starlark.Universe["len"] {
+			return c20Code("function", 0)
+		}
+	}
+	return -2
+}
+
+func c20Repr(code int64) string {
+	if code < 0 {
+		return "fail"
+	}
+	var reg sync.Map
+	return c20Make(code, &reg).String()
 }
 
 type c20Event struct {
@@ -46,6 +259,8 @@ type c20Scenario struct {
 	id      int
 	builtin bool
 	nkeys   int
+	style   int      // key style, index into c20KeyStyles
+	keys    []string // the key strings, by key number
 	plan    [][]c20Call
 	jitter  [][]int // per goroutine per call: 0 none, 1 gosched, 2.. sleep microseconds
 }
@@ -56,8 +271,6 @@ func c20Env(name string, def int) int {
 	}
 	return def
 }
-
-func c20Key(k int) string { return "key" + strconv.Itoa(k) }
 
 func c20Gen(seed int64, id int) *c20Scenario {
 	rng := rand.New(rand.NewSource(seed*1000003 + int64(id)*7919 + 17))
@@ -72,14 +285,53 @@ func c20Gen(seed int64, id int) *c20Scenario {
 	}
 	// enumerated boundary classes first
 	fixed := map[int][][]c20Call{
-		0: {{{0, 1}}, {{0, 2}}},                                     // two callers, one key, both would succeed
-		1: {{{0, -1}}, {{0, -1}}},                                   // both fail
-		2: {{{0, -1}, {0, 1}}, {{0, 2}}},                            // fail then retry
-		3: {{{0, -1}, {0, -1}, {0, 1}}, {{0, -1}, {0, 2}}},          // several failures, then success
-		4: {{{0, 1}, {0, 2}, {0, 3}}, {{0, 4}, {0, 5}, {0, 6}}},     // repeated calls on a cached key
-		5: {{{0, 1}}, {{1, 2}}, {{2, 3}}, {{0, 4}}, {{1, 5}}, {{2, 6}}}, // three keys
+		0: {{{0, 1, 0}}, {{0, 2, 0}}},                                                     // two callers, one key, both would succeed
+		1: {{{0, -1, 0}}, {{0, -1, 0}}},                                                   // both fail
+		2: {{{0, -1, 0}, {0, 1, 0}}, {{0, 2, 0}}},                                         // fail then retry
+		3: {{{0, -1, 0}, {0, -1, 0}, {0, 1, 0}}, {{0, -1, 0}, {0, 2, 0}}},                 // several failures, then success
+		4: {{{0, 1, 0}, {0, 2, 0}, {0, 3, 0}}, {{0, 4, 0}, {0, 5, 0}, {0, 6, 0}}},         // repeated calls on a cached key
+		5: {{{0, 1, 0}}, {{1, 2, 0}}, {{2, 3, 0}}, {{0, 4, 0}}, {{1, 5, 0}}, {{2, 6, 0}}}, // three keys
 	}
-	if p, ok := fixed[id/2]; ok && id < 12 {
+	okShapes := func(code int64) []int {
+		if code < 0 {
+			return []int{0, 1, 2, 4, 5}
+		}
+		if code == c20Code("None", 0) {
+			return []int{0, 1, 2, 3}
+		}
+		return []int{0, 1, 2}
+	}
+	nKinds, nStyles := len(c20Kinds), len(c20KeyStyles)
+	failShapes := []int{1, 2, 4, 5}
+	e0 := 12                     // value-kind family: every kind but the plain int, both modes
+	e1 := e0 + 2*(nKinds-1)      // key-style family: every style but the plain one, both modes
+	e2 := e1 + 2*(nStyles-1)     // failing-callable family: every way of failing but the builtin error
+	e3 := e2 + 2*len(failShapes) // random plans from here
+	var p [][]c20Call
+	switch {
+	case id < e0:
+		p = fixed[id/2]
+	case id < e1:
+		// every call on key 0 would return a value of this one kind; repeated sequential and concurrent
+		// calls on the cached key; the callable shapes rotate (incl. the def without return for None)
+		kind := c20Kinds[1+(id-e0)/2]
+		n := 0
+		mk := func(key int) c20Call {
+			code := c20Code(kind, next(false))
+			sh := okShapes(code)
+			n++
+			return c20Call{key: key, val: code, shape: sh[(n+id/2)%len(sh)]}
+		}
+		p = [][]c20Call{{mk(0), mk(0), mk(0)}, {mk(0), mk(0)}, {mk(1), mk(0)}, {{key: 1, val: next(false)}}}
+	case id < e2:
+		sc.style = 1 + (id-e1)/2
+		mk := func(key int) c20Call { return c20Call{key: key, val: next(false)} }
+		p = [][]c20Call{{mk(0), mk(1), mk(2)}, {mk(2), mk(1), mk(0)}, {mk(0)}, {mk(1)}, {mk(2)}}
+	case id < e3:
+		fs := failShapes[(id-e2)/2]
+		p = [][]c20Call{{{0, -1, fs}, {0, next(false), 1}}, {{0, -1, fs}, {0, next(false), 0}}, {{0, -1, fs}}}
+	}
+	if p != nil {
 		sc.plan = p
 		sc.nkeys = 1
 		for _, g := range p {
@@ -99,15 +351,50 @@ func c20Gen(seed int64, id int) *c20Scenario {
 		}
 		sc.nkeys = 1 + rng.Intn(3)
 		pf := []float64{0, 0.3, 0.6, 0.9, 1}[rng.Intn(5)]
+		// drawn AFTER the structural choices so that the plans' structure is the same as before
+		type pc struct {
+			fail bool
+			key  int
+		}
+		var shapeOf [][]pc
 		for g := 0; g < ng; g++ {
 			nc := 1 + rng.Intn(3)
-			var calls []c20Call
+			var calls []pc
 			for i := 0; i < nc; i++ {
-				calls = append(calls, c20Call{key: rng.Intn(sc.nkeys), val: next(rng.Float64() < pf)})
+				calls = append(calls, pc{key: rng.Intn(sc.nkeys), fail: rng.Float64() < pf})
+			}
+			shapeOf = append(shapeOf, calls)
+		}
+		if rng.Intn(2) == 1 {
+			sc.style = rng.Intn(nStyles)
+		}
+		valueMode := rng.Intn(10) // 0-2 plain ints; 3-5 one kind for the whole scenario; 6-9 a kind per call
+		oneKind := c20Kinds[rng.Intn(nKinds)]
+		mixShapes := rng.Intn(2) == 1
+		for _, cs := range shapeOf {
+			var calls []c20Call
+			for _, c := range cs {
+				kind := "int"
+				switch {
+				case valueMode >= 6:
+					kind = c20Kinds[rng.Intn(nKinds)]
+				case valueMode >= 3:
+					kind = oneKind
+				}
+				call := c20Call{key: c.key, val: -1}
+				if uid := next(c.fail); uid > 0 {
+					call.val = c20Code(kind, uid)
+				}
+				if mixShapes {
+					sh := okShapes(call.val)
+					call.shape = sh[rng.Intn(len(sh))]
+				}
+				calls = append(calls, call)
 			}
 			sc.plan = append(sc.plan, calls)
 		}
 	}
+	sc.keys = c20Keys(sc.style)[:sc.nkeys]
 	for _, g := range sc.plan {
 		var js []int
 		for range g {
@@ -128,20 +415,9 @@ func c20Delay(j int) {
 	}
 }
 
-func c20Val(v starlark.Value, err error) int64 {
-	if err != nil {
-		return -1
-	}
-	if i, ok := v.(starlark.Int); ok {
-		if n, ok := i.Int64(); ok && n >= 1 {
-			return n
-		}
-	}
-	return -2
-}
-
 // c20RunScenario drives the real cache and returns the history, the final entries and panics.
 func c20RunScenario(sc *c20Scenario) (hist []c20Event, final map[int]int64, panics []string, invocations []int64) {
+	var reg sync.Map // mutable values produced by the callables, by pointer
 	var c *cache
 	var onceFn starlark.Value
 	if sc.builtin {
@@ -181,26 +457,42 @@ func c20RunScenario(sc *c20Scenario) (hist []c20Event, final map[int]int64, pani
 			for i, call := range sc.plan[g] {
 				call := call
 				jpre, jin := sc.jitter[g][2*i], sc.jitter[g][2*i+1]
-				callable := starlark.NewBuiltin("f", func(_ *starlark.Thread, _ *starlark.Builtin, _ starlark.Tuple, _ []starlark.Tuple) (starlark.Value, error) {
+				var callable starlark.Callable = starlark.NewBuiltin("h", func(_ *starlark.Thread, _ *starlark.Builtin, _ starlark.Tuple, _ []starlark.Tuple) (starlark.Value, error) {
 					atomic.AddInt64(&invocations[call.key], 1)
 					logEv(c20Event{'b', g, call.key, 0})
 					c20Delay(jin)
-					logEv(c20Event{'e', g, call.key, call.val})
-					if call.val < 0 {
-						return nil, fmt.Errorf("planned failure")
+					var v starlark.Value
+					if call.val >= 0 {
+						v = c20Make(call.val, &reg)
 					}
-					return starlark.MakeInt64(call.val), nil
+					logEv(c20Event{'e', g, call.key, call.val})
+					switch {
+					case call.val >= 0:
+						return v, nil
+					case call.shape == 4:
+						return starlark.None, nil // the def calls fail() next
+					case call.shape == 5:
+						return nil, nil // starlark.Call turns this into an error
+					}
+					return nil, fmt.Errorf("planned failure")
 				})
+				if src, ok := c20ShapeSrc[call.shape]; ok {
+					globals, err := starlark.ExecFile(&starlark.Thread{Name: "def"}, "c20.star", src, starlark.StringDict{"h": callable})
+					if err != nil {
+						panic("c20 harness: " + err.Error())
+					}
+					callable = globals["f"].(starlark.Callable)
+				}
 				c20Delay(jpre)
 				logEv(c20Event{'c', g, call.key, 0})
 				var v starlark.Value
 				var err error
 				if sc.builtin {
-					v, err = starlark.Call(thread, onceFn, starlark.Tuple{starlark.String(c20Key(call.key)), callable}, nil)
+					v, err = starlark.Call(thread, onceFn, starlark.Tuple{starlark.String(sc.keys[call.key]), callable}, nil)
 				} else {
-					v, err = c.once(thread, nil, c20Key(call.key), callable)
+					v, err = c.once(thread, nil, sc.keys[call.key], callable)
 				}
-				logEv(c20Event{'r', g, call.key, c20Val(v, err)})
+				logEv(c20Event{'r', g, call.key, c20Val(v, err, &reg)})
 			}
 		}(g)
 	}
@@ -210,8 +502,8 @@ func c20RunScenario(sc *c20Scenario) (hist []c20Event, final map[int]int64, pani
 	final = map[int]int64{}
 	c.m.Lock()
 	for k := 0; k < sc.nkeys; k++ {
-		if v, ok := c.entries[c20Key(k)]; ok {
-			final[k] = c20Val(v, nil)
+		if v, ok := c.entries[sc.keys[k]]; ok {
+			final[k] = c20Val(v, nil, &reg)
 		}
 	}
 	extra := len(c.entries) - len(final)
@@ -338,8 +630,32 @@ func c20Render(sc *c20Scenario, hist []c20Event, final map[int]int64) string {
 	if sc.builtin {
 		mode = "builtin"
 	}
+	// readable description of the input (for the replay file) and the classes it belongs to (for the distribution)
+	var keys, rplan, kinds, shapes []string
+	for _, k := range sc.keys {
+		q := strconv.QuoteToASCII(k)
+		if len(q) > 40 {
+			q = fmt.Sprintf("%s...(%d bytes)...%s", q[:12], len(k), q[len(q)-6:])
+		}
+		keys = append(keys, q)
+	}
+	for _, g := range sc.plan {
+		var cs []string
+		for _, c := range g {
+			cs = append(cs, fmt.Sprintf("once(%s, %s -> %s)", keys[c.key], c20Shapes[c.shape], c20Repr(c.val)))
+			if c.val >= 0 {
+				kinds = append(kinds, c20Kinds[c.val/c20KindBase])
+			} else {
+				kinds = append(kinds, "fail")
+			}
+			shapes = append(shapes, c20Shapes[c.shape])
+		}
+		rplan = append(rplan, strings.Join(cs, "; "))
+	}
 	return strings.Join([]string{"S", strconv.Itoa(sc.id), mode, strconv.Itoa(len(sc.plan)), strconv.Itoa(sc.nkeys),
-		strings.Join(plan, "|"), strings.Join(hs, " "), strings.Join(fs, ",")}, "\t")
+		strings.Join(plan, "|"), strings.Join(hs, " "), strings.Join(fs, ","),
+		strings.Join(keys, " "), strings.Join(rplan, " | "), strings.Join(kinds, ","), c20KeyStyles[sc.style],
+		strings.Join(shapes, ",")}, "\t")
 }
 
 func c20Child(t *testing.T, outPath string) {
